@@ -12,6 +12,8 @@ statement by statement; the quirks are kept (see the comments).
   incTries         lib/lpc/lex.c           inc_open()           (list of paths it tries to open, in order)
   loadProbe/...    src/simulate.c          load_object() name handling
 -/
+import NV.Gen.C15
+
 namespace NV.C15
 
 abbrev CStr := List Char
@@ -116,8 +118,9 @@ def stripDotCRev : CStr → CStr
   | c :: d :: rest => if c = 'c' ∧ d = '.' ∧ rest.length > 0 then stripDotCRev rest else c :: d :: rest
   | r => r
 
-/-- `int strip_name (const char *src, char *dest, size_t size)`; `none` = returns 0 -/
-def stripName (src : CStr) (size : Nat := 4094) : Option CStr :=
+/-- `int strip_name (const char *src, char *dest, size_t size)`; `none` = returns 0.
+    Default size: `char name[PATH_MAX - 2]` of `load_object` (regenerated constant). -/
+def stripName (src : CStr) (size : Nat := NV.Gen.C15.pathMax - 2) : Option CStr :=
   match copyNoDbl (size - 1) '\x00' (src.dropWhile (· = '/')) with
   | none => none
   | some d => some (stripDotCRev d.reverse).reverse
